@@ -274,6 +274,30 @@ class C18(ProgProp):
             raise
         except BaseException as e2:
             out.append(("total", "repr()/str() of an async generator raised %s: %s" % (type(e2).__name__, str(e2)[:100])))
+        # a task created by a task that has already finished when it runs (a "factory" task returns
+        # the child for somebody else to await): the stack must still list every creator
+        try:
+            fstack = {}
+            fsrc = (
+                "@A.asynq()\ndef fac_leaf():\n    yield item()\n    fstack['s'] = adebug.format_asynq_stack()\n    return 1\n\n"
+                "@A.asynq()\ndef fac_maker():\n    t = fac_leaf.asynq()\n    return (t,)\n\n"
+                "@A.asynq()\ndef fac_top():\n    (t,) = yield fac_maker.asynq()\n    v = yield t\n    return v\n")
+            fname2 = "<simq-c18-factory>"
+            linecache.cache[fname2] = (len(fsrc), None, fsrc.splitlines(True), fname2)
+            g2 = {"A": A, "item": item, "fstack": fstack, "adebug": adebug}
+            exec(compile(fsrc, fname2, "exec"), g2)
+            g2["fac_top"]()
+            names2 = []
+            for entry in fstack.get("s") or []:
+                m = re.search(r"fac_(top|maker|leaf)", entry)
+                names2.append(m.group(0) if m else entry[:30])
+            if names2 != ["fac_top", "fac_maker", "fac_leaf"]:
+                out.append(("asynq-stack", "format_asynq_stack() inside a task whose creator has already finished listed %r, expected ['fac_top', 'fac_maker', 'fac_leaf']" % (names2,)))
+            linecache.cache.pop(fname2, None)
+        except HarnessError:
+            raise
+        except BaseException as e3:
+            out.append(("asynq-stack", "factory scenario raised %s: %s" % (type(e3).__name__, str(e3)[:100])))
         st = stacks.get(stack_at)
         if st is not None and not out:
             got = []
